@@ -84,7 +84,8 @@ def run(ctx):
             # stores into the storage
             if isinstance(node, ast.Assign) and isinstance(node.targets[0], ast.Subscript) and astq.is_self_attr(node.targets[0].value, sf):
                 n += 1
-                ok = _fresh_list(node.value)
+                srcs = astq.sources_of(fi.node, node.value) if isinstance(node.value, ast.Name) else [node.value]
+                ok = bool(srcs) and all(_fresh_list(s_) for s_ in srcs)
                 ctx.ob(R2, fi.qual, f"store `{astq.text(node)[:70]}`", ok,
                        "" if ok else "a list object that exists elsewhere is stored: two header dicts (or a caller) would share and mutate it", node=node)
             if isinstance(node, ast.Call) and isinstance(node.func, ast.Attribute) and astq.is_self_attr(node.func.value, sf) and node.func.attr == "setdefault" and len(node.args) > 1:
@@ -165,3 +166,13 @@ def run(ctx):
     dl = m.method(HD, "__delitem__")
     dels = [x for x in astq.walk_fn(dl.node) if isinstance(x, ast.Delete)]
     ctx.ob(R4, dl.qual, "item deletion removes the whole entry", bool(dels) and all(isinstance(t, ast.Subscript) and astq.is_self_attr(t.value, sf) for x in dels for t in x.targets))
+
+
+_run_storage = run
+
+
+def run(ctx):  # noqa: F811
+    _run_storage(ctx)
+    from . import c16_effects
+
+    c16_effects.run(ctx)
